@@ -20,6 +20,20 @@ checks = {
                 text="Every reachable state (two tenants, colliding dseq 1/12, two groups, two providers, overdraft reachable) satisfies the order/bid/lease/group/deployment agreement stated in C04, decoded independently from the raw stores.", ref="6 C04"),
     "C05": dict(engine="chainmc", cat="model_checking", tech="explicit-state BFS over real-handler histories; market<->escrow join invariants per state, refund equation per transition",
                 text="Every reachable state satisfies lease active<=>payment open, bid live<=>bid account open, deployment active<=>account open; every closing transition refunds exactly the unspent balance to the owner.", ref="6 C05"),
+    "C02": dict(engine="chainmc", cat="model_checking", tech="explicit-state BFS + exhaustive parameter grid (deposit x rates x stagger x gap x trigger) on the real app; independent integer settlement ledger per transition, closed-form accrual per state",
+                text="Every settlement executed anywhere in the explored histories is compared with an independent ledger computed from the pre-state only (funded: rate x blocks for every payee; overdraft: everything distributed, each share within [rate*n, rate*(n+1)]); every open payment's accrual equals rate x (settled - lease creation height); transferred == credited; grid enumerates all deposits 1..10(14), 1-3 payments with rates 1..3, staggered creation, gaps 0..6(9), 8 settle-triggering tails.", ref="6 C02"),
+    "C06": dict(engine="chainmc", cat="model_checking", tech="explicit-state BFS over colliding-id histories with whole-store diff confinement per transition + signer table + real signed DeliverTx matrix (message type x signer)",
+                text="On every transition of S-collide (dseq 1,12,256,257,65536 over two owners; leases and bids live) the set of changed keys of all akash stores and balances is confined to the object the message names and only the signer's balance decreases; GetSigners equals the role table for every executed message; 140 real signed transactions (every message type x every cast member) are accepted by BaseApp.DeliverTx iff signed by the role.", ref="6 C06"),
+    "C16": dict(engine="chainmc", cat="model_checking", tech="explicit-state BFS; expected typed events derived from the pre/post store diff vs. events decoded the provider's way; group lifecycle path matching; exhaustive codec round-trip grid",
+                text="For every executed transition the emitted akash events, decoded through the modules' ParseEvent in the order events/publish.go uses, equal the events implied by the state change (created/closed strictly, group events as a lifecycle path), and each decoded event re-encodes to the emitted one; 13,900 constructor->decode round trips over colliding ids and prices up to 10^30.", ref="6 C16"),
+    "C17": dict(engine="chainmc", cat="model_checking", tech="explicit-state BFS over create/revoke sequences; reference model decoded from the raw store vs. real keeper lookups, iterators and gRPC Certificates query for every filter x page size in every state",
+                text="All create/revoke sequences over 2 owners x serials {0,1,255,256,257,2^64,2^159} (+ requests naming another account) to the depth bound: create accepted iff signer names itself and key absent, revoke iff valid, nothing removed, revocation permanent, and in every reachable state every lookup/listing/filter/page-size returns every matching certificate with correct serial and state without error or panic.", ref="6 C17"),
+    "C18": dict(engine="inputmc", cat="exploration", tech="small-scope exhaustive enumeration of SDL documents from a structural grammar x all mapping-key permutations; generator-as-reference oracle; exact-rational quantity oracle",
+                text="Every document of the grammar (services x images/commands/args/env x exposes x profiles x placements x pricing x counts, plus a quantity-string grid) is read by the real sdl package under every key order; groups, manifest and version are identical across runs and orders, every declared field appears unchanged, and the manifest validates against its own groups.", ref="6 C18",
+                note="trusted base: gopkg.in/yaml.v3; the grammar bounds (<=2 services, 2 profiles, 2 placements) are stated in the evidence"),
+    "C10": dict(engine="inputmc", cat="exploration", tech="small-scope exhaustive enumeration of (deployment groups, manifest) pairs, version triples and manifest field mutations against a set-theoretic oracle, through the real validation functions and manager.validateRequest (overlay harness)",
+                text="accept <=> oracle in both directions for every pair of the grammar (splits, merges, reorderings, near-miss units, endpoint kinds); version check over all (on-chain version, update events, manifest) triples; every single-field mutation changes the hash and every JSON key order leaves it unchanged.", ref="6 C10",
+                note="trusted base: encoding/json, sha256; the update-event handling of manager.run is transcribed in the in-package harness and guarded by a source-text check (exit 2 on drift)"),
 }
 
 m = {
